@@ -32,7 +32,7 @@ CHECKS.update({
          "All 4336 opcode forms (first byte, and second byte for 0xF0-0xFF) x 16 flag nibbles x key flip-flop set/clear x seeded data states run from an instruction boundary: no unprogrammed word is ever selected, every word belongs to the routine of the loaded opcode (or the interrupt-entry block), defined opcodes reach the next boundary in exactly R-COST edges, undefined first bytes never do and sit in a fixed point; a case that stops on a fetched STOP is resumed with CONTINUE and must run the routine of the fetched 0x01 whatever the instruction register holds. Not a graph construction: ALU-condition inputs are reached through data; probes report which conditional micro-branches went both ways.",
          "Trusted: hand-written routine membership table; R-COST. The abstract control space of the statement is sampled by execution, not enumerated.", "DESIGN.md 6 C09"),
  "C11": ("fault_enumeration", "deterministic simulation: the step-mode switch is injected at every clock edge of generated runs; an assembly-stepped fork is compared for full equality with a clock-stepped fork, and whole histories of one assembly-stepped machine with a clock-stepped shadow",
-         "Model-free fork oracle at every edge (any instruction phase, wait pending, interrupt pending, halted): one/two/three assembly steps == single edges to the next boundary / halt / fixed point, in every field but the step mode; every opcode byte at PC (x every second byte) and all 65 536 DIV and MUL operand pairs are swept; a quarter of the sampled runs are histories in which ONE machine is assembly-stepped 20-180 times with stimuli between steps, next to a Real-mode shadow clocked to the next boundary per step, equal after every step and stimulus; a step that does not return is caught by a wall-clock watchdog and reported with its scenario.",
+         "Model-free fork oracle at every edge (any instruction phase, wait pending, interrupt pending, halted): one/two/three assembly steps == single edges to the next boundary / halt / fixed point, in every field but the step mode; every opcode byte at PC (x every second byte) and all 65 536 DIV and MUL operand pairs are swept; a quarter of the sampled runs are histories in which ONE machine is assembly-stepped 20-180 times with stimuli between steps, next to a Real-mode shadow clocked to the next boundary per step, equal after every step and stimulus; at every fork point the TUI's real step-mode toggle handler is applied to a copy (once: only the mode changes; twice: identity); a step that does not return is caught by a wall-clock watchdog and reported with its scenario.",
          "Trusted: Machine::clone; PartialEq is expected to cover every field, the history mode additionally sees state that PartialEq leaves out through its behaviour on later steps; is_instruction_done() defines the boundary.", "DESIGN.md 6 C11"),
  "C13": ("fault_enumeration", "deterministic simulation with fault injection: seeded RAM images and dense stimulus schedules of every kind on arbitrary clock edges, every call wrapped in catch_unwind with overflow checks on",
          "Random and opcode-biased images x 5 stack sizes x limits x hostile registers under schedules of all stimulus kinds (key, continue, resets, reloads with generated images, input/pin changes, voltages from raw f32 bit patterns incl. NaN/inf/subnormal, direct bus reads/writes to every address, RAM bit flips, step-mode switches); after every stimulus all getters are read and the machine is stepped further.",
